@@ -72,6 +72,7 @@ type (
 type comp struct {
 	suffix string
 	sort   *term.Sort
+	ty     types.Type // leaf Go type (integers: used for range axioms)
 }
 
 var compCache = map[types.Type][]comp{}
@@ -85,37 +86,37 @@ func comps(t types.Type) []comp {
 	case *types.Basic:
 		switch {
 		case u.Info()&types.IsBoolean != 0:
-			out = []comp{{"", term.Bool}}
+			out = []comp{{suffix: "", sort: term.Bool}}
 		case u.Info()&types.IsString != 0:
-			out = []comp{{".len", term.Int}, {".arr", term.Arr(term.Int, term.Int)}}
+			out = []comp{{suffix: ".len", sort: term.Int}, {suffix: ".arr", sort: term.Arr(term.Int, term.Int)}}
 		case u.Info()&types.IsFloat != 0:
-			out = []comp{{".n", term.Int}, {".d", term.Int}}
+			out = []comp{{suffix: ".n", sort: term.Int}, {suffix: ".d", sort: term.Int}}
 		default:
-			out = []comp{{"", term.Int}}
+			out = []comp{{"", term.Int, t}}
 		}
 	case *types.Pointer, *types.Map, *types.Chan:
-		out = []comp{{"", term.Int}}
+		out = []comp{{suffix: "", sort: term.Int}}
 	case *types.Slice:
-		out = []comp{{".ref", term.Int}, {".off", term.Int}, {".len", term.Int}, {".cap", term.Int}}
+		out = []comp{{suffix: ".ref", sort: term.Int}, {suffix: ".off", sort: term.Int}, {suffix: ".len", sort: term.Int}, {suffix: ".cap", sort: term.Int}}
 	case *types.Interface:
-		out = []comp{{".tag", term.Int}, {".data", term.Int}}
+		out = []comp{{suffix: ".tag", sort: term.Int}, {suffix: ".data", sort: term.Int}}
 	case *types.Signature:
-		out = []comp{{".fn", term.Int}, {".env", term.Int}}
+		out = []comp{{suffix: ".fn", sort: term.Int}, {suffix: ".env", sort: term.Int}}
 	case *types.Struct:
 		for i := 0; i < u.NumFields(); i++ {
 			f := u.Field(i)
 			for _, c := range comps(f.Type()) {
-				out = append(out, comp{"." + f.Name() + c.suffix, c.sort})
+				out = append(out, comp{"." + f.Name() + c.suffix, c.sort, c.ty})
 			}
 		}
 	case *types.Array:
 		for _, c := range comps(u.Elem()) {
-			out = append(out, comp{"[]" + c.suffix, term.Arr(term.Int, c.sort)})
+			out = append(out, comp{"[]" + c.suffix, term.Arr(term.Int, c.sort), c.ty})
 		}
 	case *types.Tuple:
 		for i := 0; i < u.Len(); i++ {
 			for _, c := range comps(u.At(i).Type()) {
-				out = append(out, comp{fmt.Sprintf(".%d%s", i, c.suffix), c.sort})
+				out = append(out, comp{fmt.Sprintf(".%d%s", i, c.suffix), c.sort, c.ty})
 			}
 		}
 	default:
